@@ -4,6 +4,8 @@ import (
 	"encoding/json"
 	"fmt"
 	"net/url"
+	"os"
+	"path/filepath"
 	"sort"
 	"strings"
 
@@ -202,7 +204,81 @@ func refSpelling(c *Ctx, base string, t c05Target) string {
 	return t.doc + frag
 }
 
+// c05Symlinks: documents on disk, the base location reached through a symbolic link (a linked file, a linked
+// directory). The base is the location the caller names: a relative URI part is joined onto THAT, and the document
+// beside the link is the one designated - not the namesake beside the link's target.
+func c05Symlinks(c *Ctx) {
+	tmp, err := os.MkdirTemp("", "verif-c05-")
+	if err != nil {
+		return
+	}
+	defer os.RemoveAll(tmp)
+	if r, err := filepath.EvalSymlinks(tmp); err == nil {
+		tmp = r
+	}
+	write := func(rel, text string) bool {
+		p := filepath.Join(tmp, filepath.FromSlash(rel))
+		return os.MkdirAll(filepath.Dir(p), 0o755) == nil && os.WriteFile(p, []byte(text), 0o644) == nil
+	}
+	doc := func(who string) string {
+		return `{"swagger":"2.0","info":{"title":"t","version":"1"},"paths":{},"definitions":{"m":{"type":"string","description":"schema of ` + who + `"}},"parameters":{"p":{"name":"p","in":"query","type":"string","description":"parameter of ` + who + `"}},"responses":{"r":{"description":"response of ` + who + `"}}}`
+	}
+	rootText := `{"swagger":"2.0","info":{"title":"t","version":"1"},"paths":{},"definitions":{"local":{"type":"integer"}}}`
+	ok := write("store/real.json", rootText) && write("store/models.json", doc("store")) && write("docs/models.json", doc("docs")) &&
+		write("shared/v2/spec.json", rootText) && write("shared/common.json", doc("shared")) && write("proj/common.json", doc("proj")) &&
+		write("shared/v2/models.json", doc("v2")) && write("only/target/spec.json", rootText) && write("only/beside-target.json", doc("beside the target")) &&
+		write("lonely/beside-link.json", doc("beside the link")) && os.MkdirAll(filepath.Join(tmp, "lonely"), 0o755) == nil
+	ok = ok && os.Symlink(filepath.Join(tmp, "store", "real.json"), filepath.Join(tmp, "docs", "spec.json")) == nil &&
+		os.Symlink(filepath.Join(tmp, "shared", "v2"), filepath.Join(tmp, "proj", "api")) == nil &&
+		os.Symlink(filepath.Join(tmp, "only", "target"), filepath.Join(tmp, "lonely", "api")) == nil
+	if !ok {
+		return
+	}
+	loader := func(p string) (json.RawMessage, error) {
+		if u, err := url.Parse(p); err == nil && u.Scheme == "file" {
+			p = u.Path
+		}
+		return os.ReadFile(filepath.FromSlash(p))
+	}
+	type tc struct{ base, ref, who string }
+	cases := []tc{
+		{"docs/spec.json", "models.json", "docs"},                          // a linked file: siblings are the link's
+		{"proj/api/spec.json", "../common.json", "proj"},                   // a linked directory: the parent is the link's
+		{"proj/api/spec.json", "models.json", "v2"},                        // inside the linked directory there is one document only
+		{"lonely/api/spec.json", "../beside-link.json", "beside the link"}, // exists beside the link only
+		{"lonely/api/spec.json", "../beside-target.json", ""},              // exists beside the target only: designates nothing
+	}
+	for _, t := range cases {
+		base := filepath.ToSlash(filepath.Join(tmp, filepath.FromSlash(t.base)))
+		var typed spec.Swagger
+		_ = json.Unmarshal([]byte(rootText), &typed)
+		var generic interface{}
+		_ = json.Unmarshal([]byte(rootText), &generic)
+		for _, bsp := range []string{base, "file://" + base} {
+			for form, root := range map[string]interface{}{"typed": &typed, "generic": generic, "location": nil} {
+				for kind, frag := range map[string]string{"schema": "#/definitions/m", "parameter": "#/parameters/p", "response": "#/responses/r"} {
+					out, err, pan := resolveAs(kind, root, t.ref+frag, &spec.ExpandOptions{RelativeBase: bsp, PathLoader: loader})
+					c.Count(fmt.Sprint("symlink", t.base, t.ref, bsp == base, form, kind), true)
+					c.Hit("base-behind-a-symbolic-link")
+					cs := map[string]interface{}{"layout": "docs/spec.json -> store/real.json; proj/api -> shared/v2; lonely/api -> only/target (under a temporary directory)", "base": t.base, "base_spelling": map[bool]string{true: "path", false: "file:// URL"}[bsp == base], "ref": t.ref + frag, "kind": kind, "root": form}
+					switch {
+					case pan != "":
+						c.Fail(Failure{Kind: "crash", Sig: "C05:panic", What: "panic: " + pan, Case: cs})
+					case t.who == "" && err == nil:
+						c.Fail(Failure{Kind: "oracle", Sig: "C05:symlink-base", What: "a reference to a document that does not exist beside the (linked) base resolves without error to " + clip(out) + ": the document beside the link's target was read", Case: cs, Impl: clip(out)})
+					case t.who != "" && err != nil:
+						c.Fail(Failure{Kind: "oracle", Sig: "C05:symlink-base", What: "a reference to the document beside the (linked) base fails: " + err.Error(), Case: cs})
+					case t.who != "" && !strings.Contains(out, " of "+t.who+`"`):
+						c.Fail(Failure{Kind: "oracle", Sig: "C05:symlink-base", What: "a reference resolved against a base reached through a symbolic link returns " + clip(out) + ", not the " + kind + " of " + t.who, Case: cs, Impl: clip(out)})
+					}
+				}
+			}
+		}
+	}
+}
+
 func runC05(c *Ctx) {
+	c05Symlinks(c)
 	c.Res.Rule = "three-document worlds in six layouts (a root without file extension, sibling, sub/parent directory, http/https hosts, locations whose URL is a textual prefix of another's, two documents at one path told apart by their query) with definitions / parameters / responses / path items under names containing '/', '~', '~1', '%', '%2F', '#', '?', spaces, braces, quotes, non-ASCII; every such entry, nested pointers through properties / allOf / items, dangling members, indices, names and documents; resolved from every document as base through Resolve{Ref,Parameter,Response,PathItem,Items}WithBase with the root supplied as typed objects, as generic JSON and by location only; independent oracle: net/url ResolveReference + RFC 6901 evaluation of the designated sub-document, normalised by a decode+encode as the requested kind; error iff nothing is designated; nested $refs not followed; root unchanged; the three ways agree; model correspondence on the location-only and generic variants; non-trivial = reference with a non-empty pointer; distinct by (world, base, reference, kind, root form)"
 	nw := c.N(12, 300)
 	for wi := 0; wi < nw; wi++ {
